@@ -27,6 +27,9 @@ type caseC18 struct {
 	Fault  int      `json:"fault"`           // byte offset at which the source starts failing; -1 = never
 	Style  string   `json:"style,omitempty"` // err | eof | partial (bytes and error in the same Read)
 	Prior  SV       `json:"prior"`
+	// Reentrant: the entropy source is itself built on the library (a DRBG that hashes with HashToScalar, compares and
+	// multiplies inside Read): Random must not hold anything across the Read that those calls need.
+	Reentrant bool `json:"reentrant,omitempty"`
 }
 
 type scriptedReader struct {
@@ -37,6 +40,7 @@ type scriptedReader struct {
 	fault  int
 	style  string
 	reads  int
+	reent  bool
 }
 
 var errEntropy = errors.New("scripted entropy failure")
@@ -75,6 +79,16 @@ func faultError(style string) error {
 
 func (r *scriptedReader) Read(p []byte) (int, error) {
 	r.reads++
+	if r.reent {
+		// library calls from inside the entropy source (results are not used: the stream stays the scripted one)
+		h := secp256k1.HashToScalar([]byte{byte(r.reads)}, []byte("VERIF-C18-reentrant-source"))
+		_ = h.Encode()
+		_ = h.LessOrEqual(secp256k1.NewScalar().MinusOne())
+		if r.reads%4 == 1 {
+			secp256k1.Base().Multiply(h)
+			_ = secp256k1.HashToGroup([]byte("r"), []byte("VERIF-C18-reentrant-source")).Encode()
+		}
+	}
 	if len(p) == 0 {
 		return 0, nil
 	}
@@ -149,7 +163,7 @@ func isGoodBlock(v *big.Int) bool { return new(big.Int).Mod(v, ref.N).Sign() != 
 var c18 = gen.Register(&gen.Check[caseC18]{
 	Name: "C18/random",
 	Gen: func(t *rapid.T) caseC18 {
-		c := caseC18{Fault: -1, Prior: SVGen().Draw(t, "prior")}
+		c := caseC18{Fault: -1, Prior: SVGen().Draw(t, "prior"), Reentrant: gen.Chance(t, "reentrant", 1, 50)}
 		// zero or more bad blocks (0 or n), then a good one
 		nbad := 0
 		if gen.Chance(t, "hasBad", 1, 2) {
@@ -218,7 +232,7 @@ var c18 = gen.Register(&gen.Check[caseC18]{
 			{Blocks: append(repeatBlocks(h(ref.N), h(new(big.Int)), 300), h(big.NewInt(7))), Tail: tail, Chunks: []int{32}, Fault: -1, Prior: p},
 		}
 	},
-	Required: []string{"block>=n", "retry:zero", "retry:n", "fault:before", "fault:after", "chunked"},
+	Required: []string{"block>=n", "retry:zero", "retry:n", "fault:before", "fault:after", "chunked", "reentrant-source"},
 	Run: func(c caseC18, o *gen.Obs) error {
 		hostileCaller()
 		var stream []byte
@@ -255,7 +269,8 @@ var c18 = gen.Register(&gen.Check[caseC18]{
 		o.ClassIf(len(c.Blocks) > 64, "long-rejected-run")
 		o.NonTrivialIf(len(c.Blocks) > 1 || c.Fault >= 0 || gen.B(c.Blocks[0]).Cmp(ref.N) >= 0)
 
-		rd := &scriptedReader{stream: stream, chunks: c.Chunks, fault: c.Fault, style: c.Style}
+		rd := &scriptedReader{stream: stream, chunks: c.Chunks, fault: c.Fault, style: c.Style, reent: c.Reentrant}
+		o.ClassIf(c.Reentrant, "reentrant-source")
 		s := c.Prior.Build()
 		saved := rand.Reader
 		rand.Reader = rd
